@@ -202,6 +202,8 @@ def plan(tier, seed):
                  ('forget-rel', 'release', 'cache_trace', ['gen', str(seed + 3), '150', '40', 'forget']),
                  ('churn-rel', 'release', 'cache_trace', ['gen', str(seed + 4), '30', '600', 'churn']),
                  ('clog-rel', 'release', 'cache_trace', ['gen', '0', '700', '4', 'clog']),
+                 # every point of consumption of the consuming iterators (drain, into_iter, into_keys, into_values), from either end, dropped or forgotten
+                 ('owniter-rel', 'release', 'cache_trace', ['gen', '0', '2520', '1', 'owniter']),
                  # other instantiations of the key / value / hasher types: key without Drop impl, value without Drop impl, default hasher and hasher-less constructors
                  ('mix-pd-rel', 'release', 'cache_trace', ['gen', str(seed + 5), '150', '50', 'mix', 'pd']),
                  ('mix-dp-rel', 'release', 'cache_trace', ['gen', str(seed + 6), '150', '50', 'mix', 'dp']),
@@ -218,6 +220,9 @@ def plan(tier, seed):
                  ('exh4-h0-rel', 'release', 'cache_trace', ['exhaust', '4', '1', '0']), ('exh4-h1-dbg', 'debug', 'cache_trace', ['exhaust', '4', '1', '1'])]
         jobs.append(('clog-rel', 'release', 'cache_trace', ['gen', '0', '4100', '9', 'clog']))
         jobs.append(('clog-dbg', 'debug', 'cache_trace', ['gen', '0', '700', '9', 'clog']))
+        jobs.append(('owniter-dbg', 'debug', 'cache_trace', ['gen', '0', '2520', '1', 'owniter']))
+        for ty in ('pd', 'dp', 'dn'):
+            jobs.append(('owniter-%s-rel' % ty, 'release', 'cache_trace', ['gen', '0', '2520', '1', 'owniter', ty]))
         for ty in ('pd', 'dp', 'df', 'dn'):
             jobs.append(('mix-%s-rel' % ty, 'release', 'cache_trace', ['gen', str(seed * 100 + 95), '3000', '70', 'mix', ty]))
             jobs.append(('churn-%s-rel' % ty, 'release', 'cache_trace', ['gen', str(seed * 100 + 96), '60', '700', 'churn', ty]))
